@@ -1,3 +1,4 @@
+import Mathlib.Tactic.Ring
 import MpsProps.C19
 import Mps.ZK.Paillier
 import Mps.ZK.Blum
@@ -95,7 +96,62 @@ theorem fac_accept_range (pre : List Item) (pub prf : Rec) (hacc : Fac.verify pr
     | true => rfl
     | false => unfold Fac.verify at hacc; reject_by_range hr hacc
 
-/-- `EncWithNonce` panics on a plaintext beyond `⌊N/2⌋`: zkdec and zkmul reach it with an unchecked response -/
+theorem intMod_lt (z : Int) (n : Nat) (hn : 0 < n) : intMod z n < n := by
+  unfold intMod
+  have h1 : z % (n : Int) < n := Int.emod_lt_of_pos _ (by exact_mod_cast hn)
+  have h0 : 0 ≤ z % (n : Int) := Int.emod_nonneg _ (by omega)
+  omega
+
+theorem intMod_cast (z : Int) (n : Nat) (hn : 0 < n) : ((intMod z n : Nat) : Int) = z % (n : Int) := by
+  unfold intMod
+  have h0 : 0 ≤ z % (n : Int) := Int.emod_nonneg _ (by omega)
+  omega
+
+/-- the representative `SetModSymmetric` picks lies in the plaintext range … -/
+theorem symMod_natAbs_le (z : Int) (n : Nat) (hn : 0 < n) : (symMod z n).natAbs ≤ n / 2 := by
+  unfold symMod
+  have hr := intMod_lt z n hn
+  generalize intMod z n = r at hr ⊢
+  by_cases h0 : r = 0
+  · subst h0; simp
+  · have hneg : (n - r) % n = n - r := Nat.mod_eq_of_lt (by omega)
+    simp only [hneg]
+    split <;> omega
+
+/-- … and is congruent to the response mod N -/
+theorem symMod_congr (z : Int) (n : Nat) (hn : 0 < n) : (symMod z n - z) % (n : Int) = 0 := by
+  unfold symMod
+  have hr := intMod_lt z n hn
+  have hc := intMod_cast z n hn
+  generalize intMod z n = r at hr hc ⊢
+  have hz : z = (n : Int) * (z / n) + r := by rw [hc]; exact (Int.mul_ediv_add_emod z n).symm
+  by_cases h0 : r = 0
+  · subst h0
+    simp only [Nat.sub_zero, Nat.mod_self, Nat.lt_irrefl, ↓reduceIte]
+    rw [hz]; simp
+  · have hneg : (n - r) % n = n - r := Nat.mod_eq_of_lt (by omega)
+    simp only [hneg]
+    split
+    · have e : (-((n - r : Nat) : Int) - z) = (n : Int) * (-1 - z / n) := by
+        have : ((n - r : Nat) : Int) = (n : Int) - r := by omega
+        rw [this]; conv_lhs => rw [hz]
+        ring
+      rw [e]; simp
+    · have e : ((r : Int) - z) = (n : Int) * (- (z / n)) := by
+        conv_lhs => rw [hz]
+        ring
+      rw [e]; simp
+
+/-- … so zkdec / zkmul, which encrypt the reduced response, cannot make `EncWithNonce` panic -/
+theorem encWithNonce_symMod_ok (n : Nat) (z : Int) (nonce : Nat) (hn : 0 < n) :
+    ∃ c, encWithNonce n (symMod z n) nonce = .ok c := by
+  have h := symMod_natAbs_le z n hn
+  have : ¬ (symMod z n).natAbs > n / 2 := by omega
+  refine ⟨expI (n + 1) (symMod z n) (n * n) * powMod nonce n (n * n) % (n * n), ?_⟩
+  simp [encWithNonce, this]
+
+/-- `EncWithNonce` panics on a plaintext beyond `⌊N/2⌋`: zkdec and zkmul reached it with an unchecked response
+    before they reduced it (`symMod`) -/
 theorem encWithNonce_panics (n : Nat) (m : Int) (nonce : Nat) (h : n / 2 < m.natAbs) :
     ∃ w, encWithNonce n m nonce = .error w := by
   unfold encWithNonce
